@@ -21,7 +21,12 @@ func TestMain(m *testing.M) { stats.Main(m, "C01") }
 func oracle(r *scen.Runner, sp *scen.Sprint) *harn.Failure {
 	if sp.Err != nil {
 		// out of the property's premise ("returns without error"); counted, and examined by C05/C10
+		msg := sp.Err.Error()
+		if len(msg) > 60 {
+			msg = msg[:60]
+		}
 		stats.Label("sprint:go-error")
+		stats.Label("go-error: " + msg)
 		return nil
 	}
 	stats.Label("sprint:ok")
